@@ -76,6 +76,15 @@ def cases(tier, seed, shard, nshards):
         k += 1
         if k % nshards == shard:
             yield {"k": "term-builders", "label": lab}
+    for di, d in enumerate(DIALECT_CLASSES):
+        for hi, how in enumerate(NAMED_CONSUMERS):
+            for ai, a in enumerate(NAMED_SOURCES):
+                for bi, b in enumerate(NAMED_SOURCES):
+                    if tier == "quick" and (hi + ai + bi + seed) % 6 != di:
+                        continue
+                    k += 1
+                    if k % nshards == shard:
+                        yield {"k": "named", "d": d, "how": how, "a": a, "b": b}
     n = (2400 if tier == "quick" else 160000) // nshards
     rnd = random.Random("C01:%d:%d" % (seed, shard))
     for i in range(n):
@@ -326,6 +335,123 @@ def run_exempt(case, mon):
     mon.nontrivial(phash(prog))
 
 
+# ---------------------------------------------------------------- arguments that carry a name already
+NAMED_SOURCES = ["auto-sub", "auto-sub-2", "explicit-sub-sq0", "explicit-sub-x", "auto-setop", "explicit-setop-sq0", "table-alias-sq0",
+                 "table-alias-x", "table-auto-renamed", "cte-sq0"]
+NAMED_CONSUMERS = ["from-from", "from-join-on", "from-cross", "join-join", "where-in", "select-term", "insert-from", "update-from",
+                   "with", "union", "from-union", "from-join-using", "update-join", "delete-where-in"]
+
+
+def named_source(reg, Q, kind, k):
+    """(argument carrying a name already, an earlier statement built around it)."""
+    t = reg["Table"]("n%d" % k)
+    sub = Q.from_(t).select(t.id, t.a).where(t.a > k)
+    if kind in ("auto-sub", "auto-sub-2"):
+        holder = Q.from_(sub).select(sub.a)  # the first un-aliased subquery of its own statement: sq0
+        return sub, holder
+    if kind.startswith("explicit-sub-"):
+        sub = sub.as_(kind[13:])
+        return sub, Q.from_(sub).select(sub.a)
+    if kind == "auto-setop":
+        so = sub.union(Q.from_(t).select(t.id, t.b))
+        return so, Q.from_(so).select(so.a)
+    if kind == "explicit-setop-sq0":
+        so = sub.union(Q.from_(t).select(t.id, t.b)).as_("sq0")
+        return so, Q.from_(so).select(so.a)
+    if kind.startswith("table-alias-"):
+        ta = reg["Table"]("n%d" % k).as_(kind[12:])
+        return ta, Q.from_(ta).select(ta.a)
+    if kind == "table-auto-renamed":
+        tb = reg["Table"]("n%d" % k)
+        holder = Q.from_(t).join(tb).on(t.id == tb.id).select(tb.a)  # tb becomes n<k>2
+        return tb, holder
+    if kind == "cte-sq0":
+        cte = reg["Cte"]("sq0", sub) if "Cte" in reg else None
+        if cte is None:
+            raise LookupError("no Cte")
+        return cte, Q.with_(sub, "sq0").from_(cte).select(cte.a)
+    raise KeyError(kind)
+
+
+def named_consume(reg, Q, how, a, b):
+    t = reg["Table"]("host")
+    if how == "from-from":
+        return Q.from_(a).from_(b).select(a.a, b.a)
+    if how == "from-join-on":
+        return Q.from_(a).join(b).on(a.id == b.id).select(a.a, b.a)
+    if how == "from-cross":
+        return Q.from_(a).join(b).cross().select(a.a, b.a)
+    if how == "join-join":
+        return Q.from_(t).join(a).on(t.id == a.id).join(b).on(t.id == b.id).select(t.id)
+    if how == "from-join-using":
+        return Q.from_(a).join(b).using("id").select(a.a)
+    if how == "where-in":
+        return Q.from_(a).select(a.a).where(a.id.isin(b) if isinstance(b, reg["Term"]) else a.id == 1)
+    if how == "select-term":
+        return Q.from_(a).select(a.a, b) if isinstance(b, reg["Term"]) else Q.from_(a).select(a.a)
+    if how == "insert-from":
+        return Q.into(t).columns("id", "a").from_(a).from_(b).select(a.id, b.a)
+    if how == "update-from":
+        return Q.update(t).from_(a).from_(b).set(t.a, a.a).where(t.id == b.id)
+    if how == "update-join":
+        return Q.update(t).join(a).on(t.id == a.id).join(b).on(t.id == b.id).set(t.a, a.a)
+    if how == "delete-where-in":
+        return Q.from_(t).delete().where(t.id.isin(a)).where(t.a.isin(b)) if isinstance(a, reg["Term"]) and isinstance(b, reg["Term"]) else Q.from_(t).delete()
+    if how == "with":
+        qa = a if isinstance(a, reg["QueryBuilder"]) else Q.from_(a).select(a.a)
+        return Q.with_(qa, "w1").from_(b).select(b.a)
+    if how == "union":
+        qa = a if isinstance(a, (reg["QueryBuilder"], reg["_SetOperation"])) else Q.from_(a).select(a.id, a.a)
+        qb = b if isinstance(b, (reg["QueryBuilder"], reg["_SetOperation"])) else Q.from_(b).select(b.id, b.a)
+        return qa.union(qb)
+    if how == "from-union":
+        qa = a if isinstance(a, reg["QueryBuilder"]) else Q.from_(a).select(a.id, a.a)
+        qb = b if isinstance(b, reg["QueryBuilder"]) else Q.from_(b).select(b.id, b.a)
+        u = qa.union_all(qb)
+        return Q.from_(u).select(u.a)
+    raise KeyError(how)
+
+
+def run_named(case, mon):
+    """Arguments that already carry a name (automatic or explicit) are never renamed or otherwise changed, whatever the collision."""
+    from ..prog import registry
+    reg = registry()
+    Q = reg[case["d"]]
+    try:
+        a, ha = named_source(reg, Q, case["a"], 1)
+        b, hb = named_source(reg, Q, case["b"], 2)
+    except LookupError:
+        return
+    before = [(x.alias, F(x)) for x in (a, b)]
+    held = [F(ha), F(hb)]
+    try:
+        out = named_consume(reg, Q, case["how"], a, b)
+        str(out)
+        F(out)
+    except Exception as e:
+        mon.count("named_argument_calls_rejected")
+        mon.add("named_argument_rejections", "%s:%s" % (case["how"], type(e).__name__))
+    else:
+        mon.count("named_argument_calls")
+    mon.add("named_argument_cells", "%s/%s/%s" % (case["how"], case["a"], case["b"]))
+    for lab, x, (al, f0), h, hf in (("first", a, before[0], ha, held[0]), ("second", b, before[1], hb, held[1])):
+        kind = case["a"] if lab == "first" else case["b"]
+        if x.alias != al:
+            mon.violation("named-argument:renamed:%s:%s" % (case["how"], kind), "%s argument (%s) carried the name %r when it was passed to %s and is called %r afterwards" % (
+                lab, kind, al, case["how"], x.alias), {"case": case})
+            return
+        if F(x) != f0:
+            mon.violation("named-argument:changed:%s:%s" % (case["how"], kind), "%s argument (%s) renders differently after %s: %s" % (
+                lab, kind, case["how"], fdiff(F(x), f0)[:3]), {"case": case})
+            return
+        if F(h) != hf:
+            mon.violation("named-argument:earlier-statement:%s:%s" % (case["how"], kind), "the statement built earlier around the %s argument (%s) renders differently after %s: %s" % (
+                lab, kind, case["how"], fdiff(F(h), hf)[:3]), {"case": case})
+            return
+    mon.count("named_argument_checks")
+    mon.nontrivial(["named", case["d"], case["how"], case["a"], case["b"]])
+
+
 def run_pair(case, mon):
     prog, want = pair_program(case["d"], *case["spec"], chain=case["chain"])
     case["prog"] = prog
@@ -400,6 +526,8 @@ def run_case(case, mon):
         return run_term_builders(case, mon)
     if case["k"] == "pair":
         return run_pair(case, mon)
+    if case["k"] == "named":
+        return run_named(case, mon)
     prog = case["prog"]
     fs = check_history(prog, mon)
     if fs is None:
@@ -458,7 +586,7 @@ def coverage_extra(m, tier):
 
 def FLOORS(tier):
     return {"rebuild_comparisons": 5000, "branching_observations": 1000, "twin_comparisons": 1000, "exemption_checks": 6,
-            "pair_programs_both_continuations_built": 5000}
+            "pair_programs_both_continuations_built": 5000, "named_argument_checks": 1000}
 
 
 def describe(case):
